@@ -724,6 +724,12 @@ func (sw *SessionWindow) handleLateData(row types.Row) bool {
 	if info == nil {
 		return false
 	}
+	// Beyond the allowance once the watermark has reached closeTime — whether or
+	// not the expiry goroutine has caught up with that watermark and removed the
+	// entry yet (otherwise the outcome depends on goroutine scheduling).
+	if sw.watermark != nil && !sw.watermark.GetCurrentWatermark().Before(info.closeTime) {
+		return false
+	}
 	// Append the late event before re-emitting so the update includes it. It
 	// carries the session's slot like every other row of the batch (the batch's
 	// window_start/window_end are read from its rows).
